@@ -1,15 +1,31 @@
 import BSModel.Driver.Util
-import BSModel.Model.Construct
+import BSModel.Model.Envelope
 namespace BS.Drv.C06
 open BS.Construct BS.Drv
 
 def errName : Err → String
-  | .parserRejectedMarkup => "ParserRejectedMarkup"
-  | .assertionError => "AssertionError"
-  | .valueError => "ValueError"
-  | .unicodeEncodeError => "UnicodeEncodeError"
-  | .unicodeError => "UnicodeError"
+  | .baseException => "BaseException" | .exception => "Exception"
+  | .keyboardInterrupt => "KeyboardInterrupt" | .systemExit => "SystemExit" | .generatorExit => "GeneratorExit"
+  | .arithmeticError => "ArithmeticError" | .overflowError => "OverflowError" | .zeroDivisionError => "ZeroDivisionError"
+  | .assertionError => "AssertionError" | .attributeError => "AttributeError"
+  | .lookupError => "LookupError" | .indexError => "IndexError" | .keyError => "KeyError"
+  | .valueError => "ValueError" | .unicodeError => "UnicodeError" | .unicodeDecodeError => "UnicodeDecodeError"
+  | .unicodeEncodeError => "UnicodeEncodeError" | .unicodeTranslateError => "UnicodeTranslateError"
+  | .typeError => "TypeError" | .runtimeError => "RuntimeError" | .recursionError => "RecursionError"
+  | .notImplementedError => "NotImplementedError" | .memoryError => "MemoryError" | .stopIteration => "StopIteration"
+  | .osError => "OSError" | .importError => "ImportError" | .nameError => "NameError"
+  | .parserRejectedMarkup => "ParserRejectedMarkup" | .featureNotFound => "FeatureNotFound" | .stopParsing => "StopParsing"
+  | .warningClass => "Warning"
   | .other k => s!"Other{k}"
+  | .otherBase k => s!"OtherBase{k}"
+
+/-- class name of the protocol -> class (`Other<k>` / `OtherBase<k>` for the open families) -/
+def parseErr (s : String) : Err :=
+  match Err.named.find? (fun e => errName e == s) with
+  | some e => e
+  | none =>
+    if s.startsWith "OtherBase" then .otherBase ((s.drop 9).toString.toNat?.getD 0)
+    else .other ((s.drop 5).toString.toNat?.getD 0)
 
 def parseMarkup (kind cpsTok : String) : Markup :=
   if kind == "b" then .bytes (cps cpsTok) else .str (cps cpsTok)
@@ -91,7 +107,28 @@ def ctorOutcome (old : Bool) (mk : Markup) (dammitSome : Bool) (tok : String) (o
   | .ok (), some e => "err " ++ errName e
   | .ok (), none => "tree"
 
+def parsePoint (s : String) : Option Point :=
+  Point.all.find? fun p => (reprStr p).endsWith ("." ++ s)
+
+def parseCode (s : String) : Code :=
+  if s == "v4130" then Code.v4130
+  else if s == "close-unguarded" then { Code.live with closeGuarded := false }
+  else Code.live
+
+def showVerdict : Verdict → String
+  | .tree => "tree"
+  | .prm => "prm"
+  | .escapes e => "escapes " ++ errName e
+
 def handle : List String → String
+  | ["inject", code, pt, cls] =>
+    match parsePoint pt with
+    | some p => showVerdict (predict (parseCode code) p (parseErr cls))
+    | none => "bad-op"
+  | ["issub", a, b] => bit ((parseErr a).isSub (parseErr b))
+  | ["covers", code] => bit (Covers (parseCode code) ⟨[], [], [.lookupError, .valueError, .unicodeEncodeError],
+      [.lookupError, .valueError, .unicodeEncodeError, .unicodeDecodeError, .unicodeError], [], [], [], [],
+      [.assertionError, .valueError], [.valueError], [.unicodeDecodeError, .unicodeError], [.valueError, .overflowError], []⟩)
   | ["heur", kind, c] => showWarning (heuristics (parseMarkup kind c))
   | ["heurold", kind, c] => showWarning (heuristicsOld (parseMarkup kind c))
   | ["guard", kind, c] => bit (heuristicsGuard (parseMarkup kind c))
